@@ -231,8 +231,24 @@ func psReal(v float64) string {
 	if !strings.ContainsAny(s, ".") {
 		s += ".0"
 	}
+	if denseReals {
+		// the Type 1 book's own spelling: no digit before the point of a
+		// fraction (.0526, -.5), no digit after the point of a whole number (7.)
+		switch {
+		case strings.HasPrefix(s, "0."):
+			s = s[1:]
+		case strings.HasPrefix(s, "-0."):
+			s = "-" + s[2:]
+		case strings.HasSuffix(s, ".0"):
+			s = s[:len(s)-1]
+		}
+	}
 	return s
 }
+
+// denseReals is set while a font is generated in the dense style (Generate is
+// not re-entrant: the checks generate one font at a time per process).
+var denseReals bool
 
 // psNumber writes an integral value as an integer and anything else as a real.
 func psNumber(v float64) string {
@@ -345,6 +361,8 @@ func Generate(m *t1model.Font, opt *Options) ([]byte, error) {
 
 	// ---- charstrings and subroutines ----
 	tbl := &subrTable{holes: opt.Dense}
+	denseReals = opt.Dense
+	defer func() { denseReals = false }()
 	type csEntry struct {
 		name string
 		data []byte
